@@ -116,7 +116,7 @@ load_slot_names(const char *path)
 /* ------------------------------------------------------------------------------------------ */
 /* out-of-order manager layout tables                                                          */
 /* ------------------------------------------------------------------------------------------ */
-enum { F_LANE, F_ROWS };
+enum { F_LANE, F_ROWS, F_ZUCKS };
 typedef struct {
         const char *name;
         int kind;
@@ -181,7 +181,10 @@ static const fdef f_des[] = {
 static const fdef f_zuc[] = {
         LANE(MB_MGR_ZUC_OOO, "args.keys", args.keys, 8, 8),
         LANE(MB_MGR_ZUC_OOO, "args.iv", args.iv, 32, 32),
-        LANE(MB_MGR_ZUC_OOO, "args.ks", args.ks, 128, 128),
+        /* AVX512 EIA3 key stream: 16-byte chunks interleaved (zuc_x16_avx512.asm, "First the 128 bytes for
+         * buffers 0,4,8,12 (total of 512 bytes), then ... 1,5,9,13"): chunk K (0..7) of lane L lives at
+         * (L % 4) * 512 + K * 64 + (L / 4) * 16.  SSE/AVX2 managers do not keep key stream here. */
+        { "args.ks", F_ZUCKS, offsetof(MB_MGR_ZUC_OOO, args.ks), 16, 16, 8, 64, 0 },
         ROWS(MB_MGR_ZUC_OOO, "state", state, 4, 22, 0), /* row stride = 4 * lanes of the architecture */
 };
 static const fdef f_snow3g[] = {
@@ -1018,6 +1021,7 @@ mgr_scan(uint64_t slot, const int full)
 /* ------------------------------------------------------------------------------------------ */
 /* storage invariant: a lane without a job holds only reset images                             */
 /* ------------------------------------------------------------------------------------------ */
+/* first byte of row r of a lane for the row-structured kinds */
 static size_t zuc_row_stride = 64; /* ZucState rows are packed by the number of lanes: sse 4, avx2 8, avx512 16 */
 
 static int
@@ -1029,6 +1033,15 @@ field_nonzero(const uint8_t *o, const odef *d, const fdef *f, const int lane)
                 for (size_t i = 0; i < f->len; i++)
                         if (p[i])
                                 return 1;
+                return 0;
+        }
+        if (f->kind == F_ZUCKS) {
+                const uint8_t *p = o + f->base + (size_t) (lane % 4) * 512 + (size_t) (lane / 4) * 16;
+
+                for (size_t r = 0; r < f->nrows; r++)
+                        for (size_t i = 0; i < f->len; i++)
+                                if (p[r * f->row_stride + i])
+                                        return 1;
                 return 0;
         }
         if (f->ni_stride && d->tnl_off && *(const uint32_t *) (o + d->tnl_off) == 2) {
@@ -1224,17 +1237,19 @@ flush_dirty(void)
                                         const int ni = fd->kind == F_ROWS && fd->ni_stride && d->tnl_off &&
                                                        *(const uint32_t *) (o + d->tnl_off) == 2;
                                         const size_t rs = fd->row_stride ? fd->row_stride : zuc_row_stride;
-                                        const size_t nr = (fd->kind == F_ROWS && !ni) ? fd->nrows : 1;
+                                        const size_t nr = ((fd->kind == F_ROWS && !ni) || fd->kind == F_ZUCKS) ? fd->nrows : 1;
                                         const size_t ln = fd->kind == F_ROWS ? (ni ? fd->nrows * fd->len : fd->len) : fd->len;
 
                                         for (size_t r = 0; r < nr; r++) {
                                                 const uint8_t *q = fd->kind == F_LANE ? o + fd->base + (size_t) lane * fd->stride
+                                                                   : fd->kind == F_ZUCKS
+                                                                           ? o + fd->base + (size_t) (lane % 4) * 512 + (size_t) (lane / 4) * 16 + r * fd->row_stride
                                                                    : ni ? o + fd->base + (size_t) lane * fd->ni_stride
                                                                         : o + fd->base + r * rs + (size_t) lane * fd->stride;
 
                                                 if (now.len < 400)
                                                         imbh_str_hex(&now, q, ln);
-                                                if (nr > 1) { /* transposed words */
+                                                if (nr > 1 && fd->kind != F_ZUCKS) { /* transposed words */
                                                         static const uint8_t z[8];
 
                                                         if (memcmp(q, z, ln) != 0) {
